@@ -199,10 +199,16 @@ def _run_rows(r, cat, kinds, outs, focus, thorough):
                         rig = rigs[(ck, enc)] = Rig(cfg, enc)
                     rig.poisoned = False
                     check_row(r, cat, kind, row, rrow, rig, enc, random.Random(core.seed() * 7 + ki * 31 + d), focus, design_ok)
+                    if kind.name in ALSO_SOLICITED and not rig.poisoned:
+                        check_row(r, cat, kind, row, rrow, rig, enc, random.Random(core.seed() * 7 + ki * 31 + d + 1000), focus, design_ok,
+                                  solicit=ALSO_SOLICITED[kind.name])
                     if rig.poisoned:
                         del rigs[(ck, enc)]    # an exception unwound through the layers (locks may be left held): start from a fresh stack
         if ki == len(kinds) - 1 and focus == "acks":
             ping_collisions(r, cat, rigs, rng)
+        if ki == len(kinds) - 1 and focus == "routing":
+            unknown_retry(r, cat, rigs, rng)
+            default_layers(r)
         if ki in (0, 40, 90):
             r.sample({"kind": kind.name, "features": {k: row[k] for k in ("tag", "type", "xmlns", "children", "mediatype", "payload", "holder", "class")},
                       "claimers_all_on": [x["claim"] for x in o["rows"] if all(x["cfg"].values())][0]})
@@ -210,6 +216,52 @@ def _run_rows(r, cat, kinds, outs, focus, thorough):
         "kind table and concrete stanzas come from the hand-written catalogue (harness/catalogue.py); encrypted message kinds and key iqs are covered by C03/C14",
         "with encryption layers on, an outgoing message is followed up to its entry into the send layer (its encryption is C03's subject)"]
     return r.finish()
+
+
+def unknown_retry(r, cat, rigs, rng):
+    """A retry receipt for a message the encryption layer does not hold (sent by an earlier run, already answered, evicted) is not its
+    business: like every other receipt it reaches the application exactly once, with or without the encryption layers."""
+    kind = cat.BY_NAME.get("in.receipt.retry")
+    if kind is None:
+        raise core.MachineryError("catalogue has no in.receipt.retry kind")
+    for (ck, enc), rig in sorted(rigs.items(), key=lambda x: repr(x[0])):
+        for variant in (None, "group"):
+            rig.reset()
+            r.case(("unknown-retry", ck, enc, variant))
+            r.cov["traces_validated_against_impl"] += 1
+            try:
+                node = kind.make_node(rng, variant=variant) if variant else kind.make_node(rng)
+                rig.inject(node)
+                ups = list(rig.top.up)
+                if len(ups) != 1 or ups[0] is None or ups[0].getId() != node["id"]:
+                    r.violation("in:count:in.receipt.retry:unknown-message", "retry receipt for a message nobody holds (encryption %s, %s): %d entities at the top, expected 1" % (
+                        enc, variant or "direct", len(ups)), {"enc": enc, "variant": variant})
+            except core.TooManyViolations:
+                raise
+            except Exception as e:
+                r.violation("in:exception:in.receipt.retry:%s" % type(e).__name__, "retry receipt for an unknown message raised %r" % (e,), {"enc": enc})
+                rigs.pop((ck, enc), None)
+                break
+
+
+def default_layers(r):
+    """The module selection of the default stack is the module selection asked for: getDefaultLayers(flags) carries exactly the
+    protocol layers of getProtocolLayers(flags)."""
+    from yowsup.stacks import YowStackBuilder
+    from yowsup.layers import YowParallelLayer
+    import itertools
+    for g, m, p, pr in itertools.product((False, True), repeat=4):
+        r.case(("default-layers", g, m, p, pr))
+        want = sorted(c.__name__ for c in YowStackBuilder.getProtocolLayers(groups=g, media=m, privacy=p, profiles=pr))
+        got = None
+        for item in YowStackBuilder.getDefaultLayers(groups=g, media=m, privacy=p, profiles=pr):
+            if isinstance(item, YowParallelLayer):
+                names = sorted(c.__name__ for c in item.sublayers) if item.sublayers and isinstance(item.sublayers[0], type) else sorted(type(c).__name__ for c in item.sublayers)
+                if "YowMessagesProtocolLayer" in names:
+                    got = names
+        if got != want:
+            r.violation("selection:default-layers", "getDefaultLayers(groups=%s, media=%s, privacy=%s, profiles=%s) carries protocol layers %s, the selection asks for %s" % (
+                g, m, p, pr, got, want), {"flags": [g, m, p, pr]})
 
 
 def ping_collisions(r, cat, rigs, rng):
@@ -243,7 +295,11 @@ def ping_collisions(r, cat, rigs, rng):
                 break
 
 
-def check_row(r, cat, kind, row, rrow, rig, enc, rng, focus, design_ok):
+# results that a layer claims with or without an outstanding request: also replayed as the reply to that request
+ALSO_SOLICITED = {"in.iq.result.sync": "out.iq.sync.get"}
+
+
+def check_row(r, cat, kind, row, rrow, rig, enc, rng, focus, design_ok, solicit=None):
     cfgname = "".join(k for k, v in sorted(rrow["cfg"].items()) if v) or "-"
     label = (kind.name, cfgname, enc)
     r.case(label + (rng.random(),))
@@ -256,8 +312,8 @@ def check_row(r, cat, kind, row, rrow, rig, enc, rng, focus, design_ok):
     try:
         if kind.direction == "in":
             req = None
-            if kind.solicited_by:
-                sk = cat.BY_NAME[kind.solicited_by]
+            if kind.solicited_by or solicit:
+                sk = cat.BY_NAME[kind.solicited_by or solicit]
                 req = sk.make_entity(rng)
                 rig.send(req)
                 rig.reset_probes_only = True
